@@ -37,7 +37,7 @@ ASSUME = ["numpy float64 / longdouble O(n^2) definitions in vrf/oracles/geom_ref
           "statement does not fix an origin); voxel sizes are rounded to float32 by the library (relative 6e-8, "
           "far below the 0.01 decision margin)",
           "distance / mean / pixel tolerances 64*u*scale with scale = the distance itself, the largest averaged "
-          "magnitude, and (|f|(|p_w|+|t|)(1+|p_c|/|z|)/|z| + |c|) respectively",
+          "magnitude (times sqrt(m) for a voxel centroid accumulated over m points), and (|f|(|p_w|+|t|)(1+|p_c|/|z|)/|z| + |c|) respectively",
           "random_filter / voxel_filter(random=True) draw from torch's global generator (seeded per worker)",
           "CPU only"]
 
@@ -649,7 +649,8 @@ def run_voxel(ck, rng, dn, thorough):
                 grp = G.groups(keys)
                 M = len(grp)
                 cent = np.stack([np.asarray(L.ld(full)[ix].mean(0), dtype=np.float64) for ix in grp.values()])
-                mag = np.stack([np.abs(full[ix]).max() if full.shape[1] else 0.0 for ix in grp.values()])
+                # a sum of m terms accumulated in the dtype: random-walk growth sqrt(m) of the rounding error
+                mag = np.stack([(np.abs(full[ix]).max() if full.shape[1] else 0.0) * np.sqrt(len(ix)) for ix in grp.values()])
                 vclass = "single-point" if n == 1 else "single-voxel" if M == 1 else "every-point-alone" if M == n else "multi"
                 reg = f"voxel_filter/{dn}/{mode}/vdim{vdim}/{vclass}"
                 wit = {"dtype": dn, "voxel": v, "vdim": vdim, "D": vdim + extra, "N": n, "occupied": M,
